@@ -41,8 +41,12 @@ def lookupTy (s : DState) (e : SExp) : Option Ty :=
     | none => parseTy e
   | _ => parseTy e
 
+def argsConsistent (args : List SExp) : Bool :=
+  heapConsistent ((args.filterMap parseVal).flatMap objs)
+
 def runOp (s : DState) (name : String) (args : List SExp) : String :=
   let env := s.env
+  if !argsConsistent args then "ill-formed-heap" else
   match name, args with
   | "equal", [t, x, y] =>
     match lookupTy s t, parseVal x, parseVal y with
@@ -52,6 +56,12 @@ def runOp (s : DState) (name : String) (args : List SExp) : String :=
         let m := Equal.top env T x y
         let sp := Spec.structEq env T x y
         s!"model={showRes m} spec={sp}"
+    | _, _, _ => "bad-op"
+  | "equalc", [t, x, y] =>     -- one-argument curried form: same body
+    match lookupTy s t, parseVal x, parseVal y with
+    | some T, some x, some y =>
+      if !(hasType env T x && hasType env T y) then "ill-typed"
+      else s!"model={showRes (Equal.top env T x y)} spec={Spec.structEq env T x y}"
     | _, _, _ => "bad-op"
   | "equalf", [t, x, y] =>     -- the same component compared as a field
     match lookupTy s t, parseVal x, parseVal y with
